@@ -29,7 +29,7 @@ BUDGET = {"quick": 70, "thorough": 1300}
 BATCH_TIMEOUT = {"quick": 300, "thorough": 1500}
 RULE = (
     "case = one hostile input (datagram, protected packet with chosen frames, hostile TLS message inside CRYPTO frames, or a "
-    "multi-packet history) delivered to a real client/server QuicConnection prepared by genuine traffic in one of 21 states "
+    "multi-packet history) delivered to a real client/server QuicConnection prepared by genuine traffic in one of 22 states "
     "(server: fresh, partial ClientHello, expecting Finished, connected, after peer/local key update, close pending, closing, "
     "draining; client: first flight, after ServerHello/EncryptedExtensions/Certificate/CertificateVerify/Finished, connected, ...), "
     "followed by <=200 timer/transmit/event steps and a final run to termination. non-trivial = the connection was live and the "
@@ -70,7 +70,7 @@ OPT_VARIANTS = [
     ("idle5", {"idle_client": 5.0, "idle_server": 5.0}),
     ("v2only", {"versions_client": ["v2"], "versions_server": ["v2", "v1"]}),
 ]
-SERVER_STATES = ["fresh", "partial_ch", "after_ch", "connected", "key_updated", "local_key_update", "close_pending", "closing", "draining"]
+SERVER_STATES = ["fresh", "partial_ch", "after_ch", "after_ch_0rtt", "connected", "key_updated", "local_key_update", "close_pending", "closing", "draining"]
 CLIENT_STATES = ["first_flight", "after_sh", "after_ee", "after_cert", "after_cv", "after_fin", "connected", "key_updated",
                  "local_key_update", "close_pending", "closing", "draining"]
 DEAD = ("closing", "draining")
@@ -84,6 +84,8 @@ def plan(tier, seed):
     jobs = []
 
     def job(role, state, opts, tag, fam, parts, part, n):
+        if state == "after_ch_0rtt" and fam == "tls":
+            return  # (the TLS catalogue for servers is covered by after_ch; this state is about frames in 0-RTT packets)
         jobs.append({"role": role, "state": state, "opts": opts, "optname": tag, "fam": fam, "seed": seed * 1000003 + len(jobs) + 1,
                      "n": n, "part": part, "parts": parts})
 
